@@ -781,6 +781,16 @@ func (P *Prog) writeSites(fn *ssa.Function) []writeSite {
 // classesOfWrite classifies the memory a write site modifies.
 func (P *Prog) classesOfWrite(w writeSite) []classified {
 	var out []classified
+	// a field store into an object whose static type is one of the per-call pooled
+	// structs (*ZogIssue, *SchemaCtx, ...) writes per-call memory by the ownership
+	// argument of C07, however the pointer was obtained (e.g. asserted from an error).
+	if st, ok := w.in.(*ssa.Store); ok {
+		if base, f := fieldVar(st.Addr); f != nil && P.isPooledType(base.Type()) {
+			if _, isPtr := base.Type().Underlying().(*types.Pointer); isPtr {
+				return []classified{{class: mcPooled, rt: root{kind: rkOpaque, v: base}}}
+			}
+		}
+	}
 	for _, rt := range P.rootsOf(w.target) {
 		switch w.in.(type) {
 		case *ssa.MapUpdate:
